@@ -91,13 +91,105 @@ var _ *pb.SharedGroupProposal
 //@ props C03 C05
 //@ assume
 //@ modifies nothing
-//@ func (*storage/raft.RaftGroup).reportUnreachable
+//@ func iface:github.com/coreos/etcd/raft.Node.ReportUnreachable
 //@ props C03 C05
 //@ assume
 //@ modifies nothing
-//@ func (*storage/raft.RaftGroup).reportSnapshot
+//@ func iface:github.com/coreos/etcd/raft.Node.ReportSnapshot
 //@ props C03 C05
 //@ assume
+//@ modifies nothing
+//@ func iface:github.com/coreos/etcd/raft.Node.Step
+//@ props C03 C05
+//@ assume
+//@ modifies nothing
+//@ func iface:github.com/coreos/etcd/raft.Node.Stop
+//@ props C03 C05 C06 C14
+//@ assume
+//@ modifies nothing
+// the group's thin wrappers hand exactly what they were given to this group's raft node, once
+//@ func (*storage/raft.RaftGroup).reportUnreachable
+//@ props C03 C05
+//@ safety UNCLAIMED
+//@ ghost told int = 0
+//@ at call Node.ReportUnreachable
+//@ requires [C05 reports-the-given-node-to-its-own-raft] $arg0 == this.raft && $arg1 == nodeId && told == 0
+//@ set told = 1
+//@ end
+//@ ensures [C05 reported-once] told == 1
+//@ modifies nothing
+//@ func (*storage/raft.RaftGroup).reportSnapshot
+//@ props C03 C05
+//@ safety UNCLAIMED
+//@ ghost told int = 0
+//@ at call Node.ReportSnapshot
+//@ requires [C05 reports-the-given-status-to-its-own-raft] $arg0 == this.raft && $arg1 == nodeId && $arg2 == status && told == 0
+//@ set told = 1
+//@ end
+//@ ensures [C05 reported-once] told == 1
+//@ modifies nothing
+//@ func (*storage/raft.RaftGroup).receive
+//@ props C05
+//@ safety UNCLAIMED
+//@ ghost stepped int = 0
+//@ ghost stepErr error = nil
+//@ at call Node.Step
+//@ requires [C05 steps-the-given-message-into-its-own-raft] $arg0 == this.raft && $arg1 == this.ctx && $arg2 == message && stepped == 0
+//@ set stepped = 1
+//@ set stepErr = $ret0
+//@ end
+//@ ensures [C05 stepped-once-and-rafts-answer-returned] stepped == 1 && ret == stepErr
+//@ modifies nothing
+
+// the receiving side of the transport (C05: a message must reach the group it names and no other): the group id is decoded
+// from the request, the group registered under exactly that id is looked up, the message bytes of the request are decoded
+// and stepped into that group, once; an unknown group, a malformed id or an undecodable message is an error and steps nothing
+//@ func (*storage/raft.RaftTransport).getGroup
+//@ props C05
+//@ requires [wf] this.groups != nil
+//@ ensures [C05 the-group-registered-under-the-id] has(this.groups, id) ==> isnil(ret1) && ret0 == this.groups[id]
+//@ ensures [C05 unknown-group-is-an-error] !has(this.groups, id) ==> ret1 == GroupNotFoundError && ret0 == nil
+//@ modifies nothing
+//@ func (*storage/raft.RaftTransport).removeGroup
+//@ props C05 C14
+//@ requires [wf] this.groups != nil
+//@ ensures [C05 deregistered] old(has(this.groups, id)) ==> isnil(ret) && !has(this.groups, id)
+//@ ensures [C05 unknown-group-is-an-error] !old(has(this.groups, id)) ==> ret == GroupNotFoundError && len(this.groups) == old(len(this.groups))
+//@ ensures [others] forall j uuid.UUID :: j != id ==> has(this.groups, j) == old(has(this.groups, j)) && this.groups[j] == old(this.groups[j])
+//@ modifies map(this.groups)
+//@ func (*storage/raft.RaftTransport).Receive
+//@ props C05
+//@ safety UNCLAIMED
+//@ ghost gidOK int = 0
+//@ ghost gid uuid.UUID = any
+//@ ghost grp *RaftGroup = nil
+//@ ghost grpOK int = 0
+//@ ghost decoded int = 0
+//@ ghost stepped int = 0
+//@ ghost stepErr error = nil
+//@ at call uuid.FromBytes
+//@ requires [C05 group-id-from-the-request] $arg0 == req.GroupId
+//@ set gid = $ret0
+//@ set gidOK = ite(isnil($ret1), 1, 0)
+//@ end
+//@ at call RaftTransport).getGroup
+//@ requires [C05 looks-up-the-named-group] $arg0 == this && $arg1 == gid && gidOK == 1
+//@ set grp = $ret0
+//@ set grpOK = ite(isnil($ret1), 1, 0)
+//@ end
+//@ at call proto.Unmarshal
+//@ requires [C05 decodes-the-requests-message] $arg0 == req.Message && istype($arg1, *raftpb.Message) && grpOK == 1
+//@ set decoded = ite(isnil($ret0), 1, 0)
+//@ end
+//@ at call RaftGroup).receive
+//@ requires [C05 stepped-into-the-named-group] $arg0 == grp && grpOK == 1 && decoded == 1 && stepped == 0 && $arg1 == message
+//@ set stepped = 1
+//@ set stepErr = $ret0
+//@ end
+//@ requires [wf] this.groups != nil && req != nil
+//@ ensures [C05 acknowledged-only-if-stepped] isnil(ret1) ==> stepped == 1 && isnil(stepErr) && ret0 != nil
+//@ ensures [C05 rafts-refusal-surfaces] stepped == 1 && !isnil(stepErr) ==> ret1 == stepErr
+//@ ensures [C05 unknown-group-steps-nothing] gidOK == 1 && !old(has(this.groups, gid)) ==> stepped == 0 && !isnil(ret1)
 //@ modifies nothing
 //@ func (*storage/raft.RaftTransport).Send
 //@ props C03 C05
